@@ -3,6 +3,8 @@ package props
 import (
 	"bufio"
 	"bytes"
+	"context"
+	"crypto/tls"
 	"encoding/base64"
 	"fmt"
 	"io"
@@ -186,6 +188,94 @@ type upCfg struct {
 	RespHdr      map[string][]string `json:"response_header"`
 	RespNil      bool                `json:"response_header_nil"`
 	WarmUp       bool                `json:"reused_after_an_earlier_upgrade,omitempty"`
+	CustomErr    bool                `json:"custom_error_func,omitempty"` // Upgrader.Error set: it must get every refusal, exactly once
+	Deploy       *deployCtx          `json:"deployment,omitempty"`
+}
+
+// deployCtx is the setting the handler runs in; none of it is part of any handshake rule.
+type deployCtx struct {
+	Unix   bool                `json:"unix_socket_listener,omitempty"` // the http.Server listens on a Unix-domain socket (behind a reverse proxy)
+	TLS    bool                `json:"request_arrived_over_tls,omitempty"`
+	Remote string              `json:"remote_addr,omitempty"`
+	PreHdr map[string][]string `json:"headers_already_set_by_middleware,omitempty"` // on the ResponseWriter before Upgrade runs
+}
+
+var unixLocalAddr = &net.UnixAddr{Name: "/run/app/ws.sock", Net: "unix"}
+
+func genDeploy(r *gen.R, origins []string) *deployCtx {
+	d := &deployCtx{Unix: r.Chance(1, 3), TLS: r.Chance(1, 3)}
+	d.Remote = []string{"", "127.0.0.1:50000", "[::1]:50000", "@", "10.0.0.7:1234", "192.168.1.5:80"}[r.Intn(6)]
+	if r.Bool() {
+		d.PreHdr = map[string][]string{}
+		o := "*"
+		if len(origins) > 0 && r.Bool() {
+			o = origins[0] // a CORS layer that reflects the request's Origin
+		}
+		for i, n := 0, r.Range(1, 3); i < n; i++ {
+			switch r.Intn(5) {
+			case 0, 1:
+				d.PreHdr["Access-Control-Allow-Origin"] = []string{o}
+			case 2:
+				d.PreHdr["Access-Control-Allow-Credentials"] = []string{"true"}
+				d.PreHdr["Vary"] = []string{"Origin"}
+			case 3:
+				d.PreHdr["X-Frame-Options"] = []string{"SAMEORIGIN"}
+			default:
+				d.PreHdr["Strict-Transport-Security"] = []string{"max-age=63072000"}
+			}
+		}
+	}
+	return d
+}
+
+func (d *deployCtx) applyReq(req *http.Request, host string) *http.Request {
+	if d == nil {
+		return req
+	}
+	if d.Unix {
+		req = req.WithContext(context.WithValue(req.Context(), http.LocalAddrContextKey, net.Addr(unixLocalAddr)))
+	}
+	if d.TLS {
+		req.TLS = &tls.ConnectionState{HandshakeComplete: true, ServerName: host, Version: tls.VersionTLS13}
+	}
+	req.RemoteAddr = d.Remote
+	return req
+}
+
+func (d *deployCtx) applyW(w http.ResponseWriter) {
+	if d == nil {
+		return
+	}
+	for k, v := range d.PreHdr {
+		w.Header()[k] = append([]string(nil), v...)
+	}
+}
+
+// unixConn makes an in-memory connection look as if accepted from a Unix-domain socket listener.
+type unixConn struct{ net.Conn }
+
+func (unixConn) LocalAddr() net.Addr  { return unixLocalAddr }
+func (unixConn) RemoteAddr() net.Addr { return &net.UnixAddr{Name: "@", Net: "unix"} }
+
+// errSpy is an Upgrader.Error function that answers like the default one and records its calls.
+type errSpy struct {
+	mu      sync.Mutex
+	calls   int
+	status  int
+	reason  error
+	written bool // the ResponseWriter already carried a status when Error was called
+}
+
+func (e *errSpy) fn(w http.ResponseWriter, r *http.Request, status int, reason error) {
+	e.mu.Lock()
+	e.calls++
+	e.status, e.reason = status, reason
+	if f, ok := w.(*fakeRW); ok && f.status != 0 {
+		e.written = true
+	}
+	e.mu.Unlock()
+	w.Header().Set("Sec-Websocket-Version", "13")
+	http.Error(w, http.StatusText(status), status)
 }
 
 var hostileValues = []string{
@@ -210,6 +300,10 @@ func genUpCfg(r *gen.R) upCfg {
 		u.CheckOrigin = 1 + r.Intn(2)
 	}
 	u.WarmUp = r.Chance(1, 5)
+	u.CustomErr = r.Chance(1, 5)
+	if r.Chance(1, 4) {
+		u.Deploy = genDeploy(r, nil)
+	}
 	switch r.Intn(7) {
 	case 0:
 		u.RespNil = true
@@ -240,8 +334,13 @@ func genUpCfg(r *gen.R) upCfg {
 	return u
 }
 
-func (u upCfg) build() (*ws.Upgrader, http.Header) {
+func (u upCfg) build() (*ws.Upgrader, http.Header, *errSpy) {
 	up := &ws.Upgrader{ReadBufferSize: u.RB, WriteBufferSize: u.WB, EnableCompression: u.Compress}
+	var spy *errSpy
+	if u.CustomErr {
+		spy = &errSpy{}
+		up.Error = spy.fn
+	}
 	if !u.SubNil {
 		up.Subprotocols = append([]string{}, u.Subprotocols...)
 	}
@@ -261,7 +360,7 @@ func (u upCfg) build() (*ws.Upgrader, http.Header) {
 			h[k] = append([]string(nil), v...)
 		}
 	}
-	return up, h
+	return up, h, spy
 }
 
 func genHsReq(r *gen.R, u upCfg) *hsReq {
@@ -337,7 +436,12 @@ func genHsReq(r *gen.R, u upCfg) *hsReq {
 	}
 	q.set("Origin", ol, oc)
 	// offers
-	switch r.Intn(7) {
+	switch r.Intn(9) {
+	case 7:
+		// subprotocol names are case-sensitive tokens: these match nothing the server supports
+		q.set("Sec-Websocket-Protocol", []string{[]string{"Chat", "CHAT, SuperChat", "V2.JSON, X", "cHAT"}[r.Intn(4)]}, cValid)
+	case 8:
+		q.set("Sec-Websocket-Protocol", []string{"Chat, superchat", "X"}, cValid)
 	case 0:
 		q.set("Sec-Websocket-Protocol", []string{"chat"}, cValid)
 	case 1:
@@ -466,6 +570,7 @@ type hsOutcome struct {
 	nc         *xport.Conn
 	byNetHTTP  bool
 	serverSide bool
+	espy       *errSpy // non-nil when Upgrader.Error was set
 }
 
 // direct runs Upgrade on a fake ResponseWriter/Hijacker.
@@ -479,9 +584,11 @@ func (q *hsReq) direct(u upCfg) *hsOutcome {
 			req.Header[textproto.CanonicalMIMEHeaderKey(k)] = append(req.Header[textproto.CanonicalMIMEHeaderKey(k)], strings.Trim(v, " \t"))
 		}
 	}
+	req = u.Deploy.applyReq(req, q.Host)
 	nc := xport.New(nil)
 	w := newFakeRW(nc, nil, 4096)
-	up, rh := u.build()
+	u.Deploy.applyW(w)
+	up, rh, espy := u.build()
 	if u.WarmUp {
 		// history: the application reuses its Upgrader and its responseHeader map; an
 		// earlier client offered everything (permessage-deflate, subprotocols)
@@ -493,9 +600,12 @@ func (q *hsReq) direct(u upCfg) *hsOutcome {
 		if wc != nil {
 			wc.Close()
 		}
+		if espy != nil {
+			*espy = errSpy{}
+		}
 	}
 	c, err := up.Upgrade(w, req, rh)
-	o := &hsOutcome{raw: nc.Written(), status: w.status, hdr: w.hdr, hijacks: w.hijacks, conn: c, err: err, nc: nc}
+	o := &hsOutcome{raw: nc.Written(), status: w.status, hdr: w.hdr, hijacks: w.hijacks, conn: c, err: err, nc: nc, espy: espy}
 	if c != nil {
 		// usable afterwards?
 		f := wire.Frame{Fin: true, Op: 1, Masked: true, Key: [4]byte{1, 2, 3, 4}, Payload: []byte("usable?")}
@@ -532,6 +642,7 @@ type srvResult struct {
 	conn    bool
 	err     error
 	hijacks int
+	espy    *errSpy
 }
 
 type srvCase struct {
@@ -570,9 +681,13 @@ func startSrv() {
 			}
 			cs := v.(*srvCase)
 			spy := &hijackSpy{ResponseWriter: w}
-			up, rh := cs.u.build()
+			up, rh, espy := cs.u.build()
+			cs.u.Deploy.applyW(spy)
+			if cs.u.Deploy != nil && cs.u.Deploy.TLS {
+				r.TLS = &tls.ConnectionState{HandshakeComplete: true, ServerName: r.Host, Version: tls.VersionTLS13}
+			}
 			c, err := up.Upgrade(spy, r, rh)
-			cs.res <- srvResult{conn: c != nil, err: err, hijacks: spy.n}
+			cs.res <- srvResult{conn: c != nil, err: err, hijacks: spy.n, espy: espy}
 			if c != nil {
 				defer c.Close()
 				c.SetReadDeadline(time.Now().Add(20 * time.Second))
@@ -613,7 +728,11 @@ func (q *hsReq) real(u upCfg, r *gen.R) (*hsOutcome, string) {
 	}
 	b.WriteString("\r\n")
 	cli, srvc := net.Pipe()
-	srvLn.ch <- srvc
+	if u.Deploy != nil && u.Deploy.Unix {
+		srvLn.ch <- unixConn{srvc}
+	} else {
+		srvLn.ch <- srvc
+	}
 	defer cli.Close()
 	cli.SetDeadline(time.Now().Add(20 * time.Second))
 	go cli.Write(b.Bytes())
@@ -632,7 +751,7 @@ func (q *hsReq) real(u upCfg, r *gen.R) (*hsOutcome, string) {
 	o := &hsOutcome{raw: raw.Bytes(), serverSide: true}
 	select {
 	case res := <-cs.res:
-		o.err, o.hijacks = res.err, res.hijacks
+		o.err, o.hijacks, o.espy = res.err, res.hijacks, res.espy
 		if res.conn {
 			o.conn = &ws.Conn{} // marker: non-nil
 		}
@@ -677,7 +796,7 @@ func init() {
 			return 120000
 		},
 		Run:        runC12,
-		Required:   []string{"must_accept_checked", "must_reject_checked", "real_server_cases", "response_lines_checked"},
+		Required:   []string{"must_accept_checked", "must_reject_checked", "real_server_cases", "response_lines_checked", "refusals_through_custom_error_func"},
 		MaxWorkers: 16,
 		Assumptions: []string{
 			"UNSPECIFIED requests (empty list elements, version lists containing 13, non-canonical or duplicate keys, extension offers with quoting or other case, application-supplied Sec-WebSocket-Extensions) are executed but no outcome is demanded",
@@ -747,6 +866,17 @@ func c12Judge(out *core.Out, q *hsReq, u upCfg, class int, why []string, pure bo
 			fail("error-type", fmt.Sprintf("refusal returned %T (%v), not a HandshakeError", o.err, o.err))
 			return
 		}
+		if o.espy != nil {
+			out.Count("refusals_through_custom_error_func", 1)
+			if o.espy.calls != 1 || o.espy.written {
+				fail("custom-error-func-bypassed", fmt.Sprintf("Upgrader.Error is set; on refusal it was called %d times (response already started before the call: %v), expected exactly once with an untouched response", o.espy.calls, o.espy.written))
+				return
+			}
+			if o.espy.reason == nil || o.espy.reason.Error() != o.err.Error() {
+				fail("custom-error-func-reason", fmt.Sprintf("Upgrader.Error received reason %v, Upgrade returned %v", o.espy.reason, o.err))
+				return
+			}
+		}
 		status, hdr := o.status, o.hdr
 		if o.serverSide {
 			h, err := httpx.ParseResponse(o.raw)
@@ -782,6 +912,10 @@ func c12Judge(out *core.Out, q *hsReq, u upCfg, class int, why []string, pure bo
 		}
 		if o.hijacks != 1 {
 			fail("hijack-count", fmt.Sprintf("Hijack was called %d times on success", o.hijacks))
+			return
+		}
+		if o.espy != nil && o.espy.calls != 0 {
+			fail("custom-error-func-called-on-success", fmt.Sprintf("Upgrader.Error was called %d times (status %d) although Upgrade succeeded", o.espy.calls, o.espy.status))
 			return
 		}
 		c12Check101(out, q, u, o, fail)
